@@ -28,6 +28,9 @@ source; anything that no longer has a recognisable shape raises Untranslatable):
       state_task_weak_while_connected                  the state task drops its strong references
       recv_ends_on_close                               PeerConnection::recv
       shutdown_complete_closes                         CT_SHUTDOWN_COMPLETE handling
+  * shape checks without a boolean (Untranslatable when they fail): the steps of close_with_reason, Drop, close(),
+    the ICE Failed/Closed arms, the DTLS closed/failed and grace-expiry branches, and that spawn_transport_loops
+    builds its LoopsGuard outside the returned future (dropping that future un-polled must still abort the loops)
 """
 import re
 import sys
@@ -281,6 +284,15 @@ def gen_lifecycle():
     flag(m, "state_task_weak_while_connected",
          len(re.findall(r"drop\(pc_temp\); drop\(inner\);", npc)) == 2,
          "handle_connected_state(_no_dtls) drop their strong references before the connected loop", PC)
+    # the model's leave_conn / Drop assume that dropping the `rtcp_loop` future aborts the transport loops, also
+    # when that future was never polled: the LoopsGuard must be built outside the async block
+    if "fn spawn_transport_loops(" not in npc:
+        raise Untranslatable("fn spawn_transport_loops not found")
+    if not re.search(r"handles\.push\(handle\); \} let guard = LoopsGuard\(handles\); Box::pin\(async move \{ let _guard = guard; done\.notified\(\)\.await; \}\) \}", npc):
+        raise Untranslatable("spawn_transport_loops: the LoopsGuard is no longer built before (outside) the returned future")
+    m.manifest.append({"item": "spawn_transport_loops builds its LoopsGuard eagerly", "file": PC})
+    if not re.search(r"impl Drop for LoopsGuard \{ fn drop\(&mut self\) \{ for handle in self\.0\.drain\(\.\.\) \{ handle\.abort\(\); \} \} \}", npc):
+        raise Untranslatable("LoopsGuard::drop no longer aborts every transport loop")
     _, _, sd = rs2v.find_fn(pc, "start_dtls")
     flag(m, "runner_exit_is_error",
          re.search(r"if dtls_runner_done \{ return Err\(RtcError::Internal\( \"DTLS transport closed before completing handshake\"\.into\(\), \)\); \}", norm(sd)) is not None,
